@@ -58,7 +58,8 @@ def _body_spsp(ctx, case):
         # fresh operands for every operator: a mutated operand must not leak into the next call
         with ctx.sut("construct"):
             S, S2 = H.sp_of(shape, case["a"]), H.sp_of(shape, case["b"])
-        H.run_op(ctx, f"{name}/sp-sp", ts, lambda: H.SUT[name](S, S2), lambda: H.NP[name](A, B), info)
+        H.run_op(ctx, f"{name}/sp-sp", ts, lambda: H.SUT[name](S, S2), lambda: H.NP[name](A, B), info,
+                 split=H.value_split(f"{name}/sp-sp", A, B))
 
 
 def _body_sptn(ctx, case):
@@ -72,7 +73,8 @@ def _body_sptn(ctx, case):
     for name in H.BINARY:
         with ctx.sut("construct"):
             S, T = H.sp_of(shape, case["a"]), H.tn_of(shape, case["b"])
-        H.run_op(ctx, f"{name}/sp-tn", ts, lambda: H.SUT[name](S, T), lambda: H.NP[name](A, B), info)
+        H.run_op(ctx, f"{name}/sp-tn", ts, lambda: H.SUT[name](S, T), lambda: H.NP[name](A, B), info,
+                 split=H.value_split(f"{name}/sp-tn", A, B))
 
 
 def _body_tnsp(ctx, case):
@@ -217,8 +219,9 @@ def _operand_a(draw, tier):
     vkind = draw(st.sampled_from(["set", "half", "float"]))
     vs = _vstrat(vkind)
     ma = draw(_mask(n, draw(st.sampled_from(_PATTERNS_A))))
-    vals = draw(st.lists(vs, min_size=n, max_size=n))
-    va = [v if m else 0.0 for m, v in zip(ma, vals)]
+    k = sum(ma)  # draw exactly the values that are used (unused draws only produce duplicate cases)
+    vals = iter(draw(st.lists(vs, min_size=k, max_size=k)))
+    va = [next(vals) if m else 0.0 for m in ma]
     return shape, n, vs, va
 
 
@@ -234,9 +237,15 @@ def _pair_sampled(draw, tier, permute_b=True):
                 mb[k] = not mb[k]
     else:
         mb = draw(_mask(n, pb))
-    same = draw(st.lists(st.integers(0, 2), min_size=n, max_size=n))
-    fresh = draw(st.lists(vs, min_size=n, max_size=n))
-    vb = [0.0 if not mb[k] else (va[k] if (va[k] != 0.0 and same[k] == 0) else fresh[k]) for k in range(n)]
+    ncommon = sum(1 for k in range(n) if mb[k] and va[k] != 0.0)
+    same = iter(draw(st.lists(st.integers(0, 2), min_size=ncommon, max_size=ncommon)))
+    vb = [0.0] * n
+    for k in range(n):
+        if mb[k]:
+            vb[k] = va[k] if (va[k] != 0.0 and next(same) == 0) else None
+    nfresh = sum(1 for v in vb if v is None)
+    fresh = iter(draw(st.lists(vs, min_size=nfresh, max_size=nfresh)))
+    vb = [next(fresh) if v is None else v for v in vb]
     ea = [(subsF[k], va[k]) for k in range(n) if va[k] != 0.0]
     eb = [(subsF[k], vb[k]) for k in range(n) if vb[k] != 0.0]
     a = _store(draw, ea)
